@@ -16,6 +16,8 @@ SORTMOD = "acnportal.algorithms.sorted_algorithms."
 SORTFNS = [SORTMOD + f for f in ("first_come_first_served", "last_come_first_served", "earliest_deadline_first", "least_laxity_first",
                                  "largest_remaining_processing_time")]
 GREEDY = [SA + "sorting_algorithm"]
+RRM = "acnportal.algorithms.sorted_algorithms.RoundRobin."
+RROBIN = [RRM + "round_robin"]
 PREP = "acnportal.algorithms.preprocessing."
 PREPROC = [PREP + f for f in ("remove_finished_sessions", "enforce_pilot_limit", "reconcile_max_and_min", "expand_max_min_rates", "apply_upper_bound_estimate")] \
           + ["acnportal.algorithms.utils.remaining_amp_periods", "acnportal.algorithms.utils.infrastructure_constraints_feasible"]
@@ -48,7 +50,7 @@ BATTERY_FNS = [B + "Battery.__init__", B + "Battery.charge", B + "Battery.reset"
                B + "Linear2StageBattery._charge", B + "Linear2StageBattery._charge_stepwise"]
 SET_PILOT = [S + "BaseEVSE.set_pilot@EVSE", S + "BaseEVSE.set_pilot@DeadbandEVSE", S + "BaseEVSE.set_pilot@FiniteRatesEVSE"]
 
-SHARDS = {"acnportal.acndata.data_client.DataClient.get_sessions": 12, NET + "add_constraint": 12, NET + "update_constraint": 4, "acnportal.acnsim.interface.Interface.is_feasible": 8, NET + "is_feasible": 6, NET + "constraint_current": 4, "acnportal.algorithms.utils.infrastructure_constraints_feasible": 4, SA + "sorting_algorithm": 8, SN + "unplug": 6, SN + "post_charging_update": 4, SN + "plugin": 3, SIM + "_update_schedules": 8, SIM + "_store_actual_charging_rates": 4, B + "batt_cap_fn": 8, AE + "_convert_to_ev": 4, SIM + "run": 16, SIM + "_process_event": 4, EQ + "get_current_events": 8, EQ + "add_events": 3, EQ + "__init__": 3, B + "Linear2StageBattery._charge": 6, B + "Linear2StageBattery._charge_stepwise": 2}
+SHARDS = {"acnportal.acndata.data_client.DataClient.get_sessions": 12, NET + "add_constraint": 12, NET + "update_constraint": 4, "acnportal.acnsim.interface.Interface.is_feasible": 8, NET + "is_feasible": 6, NET + "constraint_current": 4, "acnportal.algorithms.utils.infrastructure_constraints_feasible": 4, SA + "sorting_algorithm": 8, "acnportal.algorithms.sorted_algorithms.RoundRobin.round_robin": 8, SN + "unplug": 6, SN + "post_charging_update": 4, SN + "plugin": 3, SIM + "_update_schedules": 8, SIM + "_store_actual_charging_rates": 4, B + "batt_cap_fn": 8, AE + "_convert_to_ev": 4, SIM + "run": 16, SIM + "_process_event": 4, EQ + "get_current_events": 8, EQ + "add_events": 3, EQ + "__init__": 3, B + "Linear2StageBattery._charge": 6, B + "Linear2StageBattery._charge_stepwise": 2}
 
 EVSE_FNS = [S + x for x in (
     "BaseEVSE.__init__", "EVSE.__init__", "DeadbandEVSE.__init__", "FiniteRatesEVSE.__init__",
@@ -262,7 +264,7 @@ PLAN = {
     ),
     "C07": dict(
         level="other",
-        functions=SEARCH + GREEDY + [IFC + "remaining_amp_periods"] + PREPROC + [SA + "schedule", "acnportal.algorithms.postprocessing.format_array_schedule",
+        functions=SEARCH + GREEDY + RROBIN + [IFC + "remaining_amp_periods"] + PREPROC + [SA + "schedule", RRM + "schedule", "acnportal.algorithms.postprocessing.format_array_schedule",
                                                                                    "acnportal.algorithms.base_algorithm.BaseAlgorithm.interface"] + INFRA,
         lemmas=["C07.remaining_amp_periods_are_non_negative_for_unmet_demand"],
         bounded=[dict(module="rt.algomon", fn="algo_monitor", label="every schedule() call of greedy / round-robin during seeded simulations"),
@@ -273,29 +275,35 @@ PLAN = {
              "feasible and inside [lb, ub]; ValueError exactly when the incoming schedule is infeasible. (2) the greedy allocation "
              "SortedSchedulingAlgo.sorting_algorithm (two loops, invariants + step contract), stated over the sessions as handed in, whatever order the sort "
              "function puts them in: the result is FEAS; every session's entry lies between its lower bound and min(first upper rate bound, remaining "
-             "demand in amp-periods); a finite-rate station holds 0 or one of its allowable levels; every station without a session holds 0. (3) "
+             "demand in amp-periods); a finite-rate station holds 0 or one of its allowable levels; every station without a session holds 0. (2b) the "
+             "round-robin allocation RoundRobin.round_robin (deque loop; invariants over the local, filtered level lists - for a continuous station the "
+             "np.arange discretisation, every continuous increment > 0): every level kept for a session lies within [lower bound, min(rate bound, station "
+             "maximum pilot, remaining demand in amp-periods)] and, at a finite-rate station, is one of the advertised levels; the schedule is FEAS after "
+             "every increment (an infeasible trial is reverted); every session sits at the level its index points to; the result gives each session 0 or a "
+             "pilot within those bounds, finite-rate stations an advertised level or 0, other stations 0. (3) "
              "preprocessing: remove_finished_sessions (ghost index maps), enforce_pilot_limit, reconcile_max_and_min, apply_upper_bound_estimate (bound looked "
              "up by SESSION id), expand_max_min_rates, remaining_amp_periods. (4) THE COMPOSITION SortedSchedulingAlgo.schedule for the plain greedy "
-             "configuration (no estimator, no uninterrupted charging): interface.infrastructure_info -> run_preprocessing -> sorting_algorithm -> "
+             "configuration (no estimator, no uninterrupted charging) AND RoundRobin.schedule for the plain round-robin configuration: "
+             "interface.infrastructure_info -> run_preprocessing -> sorting_algorithm / round_robin -> "
              "format_array_schedule, every callee precondition discharged at its call site; postcondition: exactly one pilot for every registered station; "
              "the pilots form a vector the algorithm-side check accepts for a description whose limits / phases / station order equal the network's; no "
              "session gets a negative pilot, more than its remaining demand (amp-periods), more than its rate bound or its station's maximum pilot; a "
              "finite-rate station gets 0 or one of its advertised levels; stations without an active session get 0. format_array_schedule: one one-element "
              "list per registered station, InvalidScheduleError exactly on a length mismatch. BOUNDED: the configurations with an estimator / uninterrupted "
-             "charging as a whole (their preprocessing steps are proved individually), round robin, and the simulation-level corollaries (no warning, no "
+             "charging as a whole (their preprocessing steps are proved individually) and the simulation-level corollaries (no warning, no "
              "invalid rate, no over-delivery) - checked at every call of the real schedule() on constructed binding states and in seeded simulations.",
         note="FEAS is the value of utils.infrastructure_constraints_feasible under default arguments (that it equals the phasor definition is C06, proved); "
              "termination of the bisection is not proved (Archimedean property); schedule() requires what Interface.active_sessions delivers (one live "
              "SessionInfo per station, first minimum rate <= 0 <= first maximum rate) and what the EVSE classes advertise through the network's cache "
              "(non-negative max / min pilots, positive voltages and period, strictly increasing level lists containing 0 - C13; the cache-filling "
              "_update_info_store itself is not under contract); the sort function and a custom estimator are assumed contracts (user code)",
-        explanation="proved: search procedures, greedy allocation (feasible, bounds, levels, zeros), preprocessing steps, and the whole plain-greedy schedule() composition; "
-                    "bounded: estimator / uninterrupted configurations as a whole, round robin, simulations (rt.algomon, rt.simcheck)",
+        explanation="proved: search procedures, greedy and round-robin allocation (feasible, bounds, levels, zeros), preprocessing steps, and the whole plain-greedy / "
+                    "plain round-robin schedule() compositions; bounded: estimator / uninterrupted configurations as a whole, simulations (rt.algomon, rt.simcheck)",
         technique="contract-based deductive verification of the search procedures, the allocation loops, the preprocessing steps and the schedule() composition (loop invariants, step contracts, recursive contract, pyvc/z3) + run-time contract monitor (bounded) for the remaining configurations",
     ),
     "C08": dict(
         level="other",
-        functions=SEARCH + GREEDY + SORTFNS + [IFC + "remaining_amp_periods", IFC + "max_pilot_signal",
+        functions=SEARCH + GREEDY + RROBIN + SORTFNS + [IFC + "remaining_amp_periods", IFC + "max_pilot_signal",
                                                 "acnportal.algorithms.uncontrolled_charging.UncontrolledCharging.schedule"],
         lemmas=["C08.feasible_set_along_one_coordinate_is_an_interval"],
         bounded=[dict(module="rt.algomon", fn="algo_monitor", label="priority allocation of greedy / round-robin / uncontrolled against the specification")],
@@ -305,15 +313,19 @@ PLAN = {
              "(contract of the recursive bisection, used at its own recursive calls); the greedy allocation loop (step contract): sessions are served in "
              "queue order, each grant changes only that session's entry and is maximal given the grants already made (largest feasible level / within "
              "eps for continuous); the five sort functions return a permutation ordered by their priority key; UncontrolledCharging.schedule (loop invariant): "
-             "every active session gets exactly its station's maximum pilot, no other station gets anything; lemma: along one coordinate each constraint is a convex "
+             "every active session gets exactly its station's maximum pilot, no other station gets anything; ROUND ROBIN (RoundRobin.round_robin, step contract of the deque "
+             "loop + exit clause): in each turn the session at the front of the queue is raised by exactly one level of its kept level list and re-queued at the "
+             "BACK iff it has a next level and that level is feasible right now; otherwise it leaves the queue and nothing changes; only its own entry ever "
+             "changes; the allocation ends only when the queue is empty (also through any `break`), i.e. a session stops only in a turn in which its next level "
+             "was infeasible at that moment or did not exist (levels above its own bound are filtered out beforehand); lemma: along one coordinate each constraint is a convex "
              "quadratic, so an infeasible point above a feasible one makes everything above it infeasible - hence 'within eps of the largest "
              "feasible pilot'. BOUNDED: the priority order (five sort keys, amp-periods from each station's voltage), the sequential allocation loop "
-             "with earlier grants fixed, round robin level by level and the uncontrolled baseline are compared with an executable specification "
+             "with earlier grants fixed, round robin level by level (whole allocations) and the uncontrolled baseline are compared with an executable specification "
              "on constructed binding states and in simulations.",
         note="FEAS as in C07; the reduction of the phasor constraint to the quadratic normal form is standard algebra and is not machine-checked here; "
              "termination of the bisection is not proved",
-        explanation="proved: maximality postconditions of the search procedures + interval lemma; bounded: ordering, allocation loop, round robin, uncontrolled (rt.algomon)",
-        technique="contract-based deductive verification of the search procedures and a convexity lemma (pyvc/z3) + run-time contract monitor against an executable specification (bounded)",
+        explanation="proved: maximality postconditions of the search procedures + interval lemma, greedy step contract, round-robin step contract and exit clause, sort orders, uncontrolled baseline; bounded: whole allocations against an executable specification (rt.algomon)",
+        technique="contract-based deductive verification of the search procedures, the greedy and round-robin allocation loops (step contracts), the sort orders and a convexity lemma (pyvc/z3) + run-time contract monitor against an executable specification (bounded)",
     ),
     "C10": dict(
         level="other",
